@@ -74,7 +74,7 @@ def plan(tier, seed):
 
 
 def shard(ctx):
-    run_cstream(ctx, knobs, on_result, ninputs=ctx.params["ninputs"], op_weights=weights(), sched_steps=(0, 1, 3, 5))
+    run_cstream(ctx, knobs, on_result, ninputs=ctx.params["ninputs"], op_weights=weights(), sched_steps=(0, 1, 3, 5), only_exact=True)
 
 
 def finish(agg, tier):
